@@ -34,7 +34,7 @@ m = {"version": 1,
      "engines": [{"name": "kani-np", "path": "check", "serves_properties": [c["property_id"] for c in checks],
                   "kind_free_text": "Kani proof harnesses mounted into the real crates (cfg(kani) child modules under /verif/harness); schedules are symbolic through nested pre-emption at stubbed atomics; CBMC/CaDiCaL decides"}],
      "checks": checks,
-     "notes": "exit 2 = inconclusive (time-out, out of memory, unwinding bound, unsatisfied witness); known findings: known_findings.json",
+     "notes": "exit 2 = inconclusive (time-out, out of memory, unwinding bound, unsatisfied witness); known findings: known_findings.json; a third tier `--tier extended` holds deeper harnesses that have not been verified to finish within the caps (not part of thorough_cmd); seeded changes and which check catches which: seeded/README.md",
      "not_applicable": na}
 json.dump(m, open(os.path.join(V, "MANIFEST.json"), "w"), indent=1)
 print("claimed:", [c["property_id"] for c in checks]); print("n/a:", [n["property_id"] for n in na])
